@@ -106,6 +106,8 @@ def transform_records(ck):
                 H.add_clause([1] if H.number_of_variables() >= 1 else [])
                 H.header["added later"] = "by the caller"
                 H.update_variable_number(H.number_of_variables() + 1)
+                H.new_variable("added_to_the_result")
+                H.new_block(2, label="w_{{{}}}")
                 for key in list(H.header):
                     if key.startswith("transformation"):
                         H.header[key] = H.header[key] + " (edited)"
